@@ -60,6 +60,11 @@ func checkSchedule(st *Stats, c *vcase.Case) string {
 			st.Record(c, true, c.Labels)
 			return "the run did not return under the delay plan (all engine goroutines blocked: " + short(detail, 200) + "); case " + c.Profile + "; delays: " + planString(c.Plan)
 		}
+		if owner == "C07" && ans.ProcessDeath != "" && len(c.Plan) > 0 {
+			// nor can a delay make it die: the process ended instead of returning the single result
+			st.Record(c, true, c.Labels)
+			return "the process died under the delay plan instead of returning the workflow's single result (" + short(detail, 300) + "); case " + c.Profile + "; delays: " + planString(c.Plan)
+		}
 		st.ForeignAnomaly(owner, c)
 		return ""
 	}
